@@ -17,7 +17,7 @@ theorem mem_rebuild {nodes : List Node} {dim : Nat} {e : Entry} :
       · simp only [hc, if_true, Option.some.injEq] at h
         subst h
         simp only [Bool.and_eq_true, decide_eq_true_eq] at hc
-        exact ⟨x, hx, rfl, hc.1, rfl, hc.2⟩
+        exact ⟨x, hx, rfl, hc.1, hv, hc.2⟩
       · simp [hc] at h
   · rintro ⟨x, hx, hxi, h1, h2, h3⟩
     refine ⟨x, hx, ?_⟩
@@ -53,6 +53,9 @@ theorem idx_map_some {s : State} {g : Index → Index} {ix' : Index} (h : onIdx 
   simpa [onIdx, Option.map_eq_some_iff] using h
 
 theorem inv_step {s : State} (hi : Inv s) (op : Op) : Inv (step s op) := by
+  have hI : ∀ f : Node → Node, (∀ x, (f x).id = x.id) → ∀ n,
+      IdsNodup (mapNode f s.nodes n) ∧ ∀ x ∈ mapNode f s.nodes n, x.id < s.next :=
+    fun f hf n => ⟨idsNodup_mapNode hf n hi.ids, lt_map hi.lt hi.ids f hf n⟩
   cases op with
   | mkIndex dim m =>
     refine ⟨hi.ids, hi.lt, ?_⟩
@@ -128,7 +131,7 @@ theorem inv_step {s : State} (hi : Inv s) (op : Op) : Inv (step s op) := by
     | some node =>
       obtain ⟨hn, hid⟩ := findNode_some hf
       subst hid
-      refine ⟨idsNodup_map hi.ids _ (fun _ => rfl) _, lt_map hi.lt hi.ids _ (fun _ => rfl) _, ?_⟩
+      refine ⟨(hI (fun x => { x with vec := vec }) (fun _ => rfl) node.id).1, (hI (fun x => { x with vec := vec }) (fun _ => rfl) node.id).2, ?_⟩
       intro ix' hix'
       simp only at hix' ⊢
       cases hL : node.inL with
@@ -152,7 +155,7 @@ theorem inv_step {s : State} (hi : Inv s) (op : Op) : Inv (step s op) := by
     | some node =>
       obtain ⟨hn, hid⟩ := findNode_some hf
       subst hid
-      refine ⟨idsNodup_map hi.ids _ (fun _ => rfl) _, lt_map hi.lt hi.ids _ (fun _ => rfl) _, ?_⟩
+      refine ⟨(hI (fun x => { x with vec := none }) (fun _ => rfl) node.id).1, (hI (fun x => { x with vec := none }) (fun _ => rfl) node.id).2, ?_⟩
       intro ix' hix'
       simp only at hix' ⊢
       cases hL : node.inL with
@@ -171,7 +174,7 @@ theorem inv_step {s : State} (hi : Inv s) (op : Op) : Inv (step s op) := by
     | some node =>
       obtain ⟨hn, hid⟩ := findNode_some hf
       subst hid
-      refine ⟨idsNodup_map hi.ids _ (fun _ => rfl) _, lt_map hi.lt hi.ids _ (fun _ => rfl) _, ?_⟩
+      refine ⟨(hI (fun x => { x with inL := true }) (fun _ => rfl) node.id).1, (hI (fun x => { x with inL := true }) (fun _ => rfl) node.id).2, ?_⟩
       intro ix' hix'
       simp only at hix' ⊢
       cases hv : node.vec with
@@ -195,7 +198,7 @@ theorem inv_step {s : State} (hi : Inv s) (op : Op) : Inv (step s op) := by
       | false => simp only [Bool.false_eq_true, if_false]; exact hi
       | true =>
         simp only [if_true]
-        refine ⟨idsNodup_map hi.ids _ (fun _ => rfl) _, lt_map hi.lt hi.ids _ (fun _ => rfl) _, ?_⟩
+        refine ⟨(hI (fun x => { x with inL := false }) (fun _ => rfl) node.id).1, (hI (fun x => { x with inL := false }) (fun _ => rfl) node.id).2, ?_⟩
         intro ix' hix'
         simp only at hix' ⊢
         obtain ⟨ix, hix, rfl⟩ := idx_map_some hix'
